@@ -85,6 +85,7 @@ type poolUse struct {
 	bufVar      string
 	gets        int
 	putDeferred bool
+	afterPut    []string // uses of the buffer that run after the deferred Put
 	putExplicit int
 	results     []string // per result: alias | copy | nilv (worst over all returns)
 	resultNames []string
@@ -251,15 +252,28 @@ func analysePoolFunc(fd *ast.FuncDecl) *poolUse {
 	if getStmtIdx < 0 {
 		die(fd.Pos(), "%s: BufPool.Get is not a top-level `buf := BufPool.Get().(*[]byte)`", u.fn)
 	}
-	// 2. Put: deferred immediately after the Get, or explicit
+	// 2. Put: a `defer` that follows the Get, separated from it by nothing but other `defer`
+	// statements. Defers run last-in-first-out: a defer registered BEFORE the deferred Put runs
+	// AFTER it — if it touches the buffer, that is a use after Put (fact afterPut). The same for
+	// statements that follow the Put inside a deferred closure.
 	var deferredPut *ast.DeferStmt
-	if getStmtIdx+1 < len(fd.Body.List) {
-		if ds, ok := fd.Body.List[getStmtIdx+1].(*ast.DeferStmt); ok {
-			if isDeferredPut(ds, u.bufVar) {
-				deferredPut = ds
-				u.putDeferred = true
-			}
+	for i := getStmtIdx + 1; i < len(fd.Body.List); i++ {
+		ds, ok := fd.Body.List[i].(*ast.DeferStmt)
+		if !ok {
+			break
 		}
+		if after, ok := deferredPutShape(ds, u.bufVar); ok {
+			deferredPut = ds
+			u.putDeferred = true
+			u.afterPut = append(u.afterPut, after...)
+			break
+		}
+		if mentions(ds, map[string]bool{u.bufVar: true}) {
+			u.afterPut = append(u.afterPut, fmt.Sprintf("line %d: defer %s registered before the deferred Put (runs after it)", fset.Position(ds.Pos()).Line, exprStr(ds.Call.Fun)))
+		}
+	}
+	if deferredPut == nil {
+		u.afterPut = nil
 	}
 	ast.Inspect(fd.Body, func(n ast.Node) bool {
 		if ds, ok := n.(*ast.DeferStmt); ok && ds == deferredPut {
@@ -448,6 +462,40 @@ func mentions(n ast.Node, vars map[string]bool) bool {
 		return true
 	})
 	return found
+}
+
+// deferredPutShape: `defer BufPool.Put(buf)` or `defer func() { …; BufPool.Put(buf); … }()`;
+// returns the statements of the closure that follow the Put and mention the buffer.
+func deferredPutShape(ds *ast.DeferStmt, buf string) (after []string, ok bool) {
+	if isDeferredPut(ds, buf) {
+		return nil, true
+	}
+	fl, isLit := ds.Call.Fun.(*ast.FuncLit)
+	if !isLit || len(ds.Call.Args) != 0 {
+		return nil, false
+	}
+	putIdx := -1
+	for i, st := range fl.Body.List {
+		if es, ok := st.(*ast.ExprStmt); ok {
+			if c, ok := es.X.(*ast.CallExpr); ok {
+				if _, ok := isPoolCall(c, "Put"); ok && len(c.Args) == 1 && exprStr(c.Args[0]) == buf {
+					if putIdx >= 0 {
+						die(st.Pos(), "two Puts in one deferred closure")
+					}
+					putIdx = i
+				}
+			}
+		}
+	}
+	if putIdx < 0 {
+		return nil, false
+	}
+	for _, st := range fl.Body.List[putIdx+1:] {
+		if mentions(st, map[string]bool{buf: true}) {
+			after = append(after, fmt.Sprintf("line %d: statement after the Put inside the deferred closure", fset.Position(st.Pos()).Line))
+		}
+	}
+	return after, true
 }
 
 func isDeferredPut(ds *ast.DeferStmt, buf string) bool {
@@ -705,6 +753,81 @@ func rootIdent(e ast.Expr) string {
 }
 
 // ---------- cron ----------
+
+// parserFieldKinds: every field of cron.Parser must be of a value type (copied with the struct by
+// the value receiver). A pointer, slice, map, channel, func or interface field would be shared by
+// all copies of standardParser: unknown shape.
+func parserFieldKinds(dir string) (fields []string) {
+	types := map[string]ast.Expr{}
+	var files []*ast.File
+	ents, _ := os.ReadDir(dir)
+	for _, e := range ents {
+		if !strings.HasSuffix(e.Name(), ".go") || strings.HasSuffix(e.Name(), "_test.go") {
+			continue
+		}
+		f := parseFile(filepath.Join(dir, e.Name()))
+		files = append(files, f)
+		ast.Inspect(f, func(m ast.Node) bool {
+			if ts, ok := m.(*ast.TypeSpec); ok {
+				types[ts.Name.Name] = ts.Type
+			}
+			return true
+		})
+	}
+	basic := map[string]bool{"int": true, "int8": true, "int16": true, "int32": true, "int64": true, "uint": true, "uint8": true,
+		"uint16": true, "uint32": true, "uint64": true, "uintptr": true, "bool": true, "string": true, "byte": true, "rune": true,
+		"float32": true, "float64": true}
+	var isValue func(e ast.Expr, depth int) bool
+	isValue = func(e ast.Expr, depth int) bool {
+		if depth > 8 {
+			return false
+		}
+		switch x := e.(type) {
+		case *ast.Ident:
+			if basic[x.Name] {
+				return true
+			}
+			if t, ok := types[x.Name]; ok {
+				return isValue(t, depth+1)
+			}
+			return false
+		case *ast.ParenExpr:
+			return isValue(x.X, depth+1)
+		case *ast.ArrayType:
+			return x.Len != nil && isValue(x.Elt, depth+1)
+		case *ast.StructType:
+			for _, f := range x.Fields.List {
+				if !isValue(f.Type, depth+1) {
+					return false
+				}
+			}
+			return true
+		}
+		return false
+	}
+	pt, ok := types["Parser"]
+	if !ok {
+		fmt.Fprintln(os.Stderr, "factgen_c08: cron: type Parser not found")
+		os.Exit(1)
+	}
+	st, ok := pt.(*ast.StructType)
+	if !ok {
+		die(pt.Pos(), "cron.Parser is not a struct")
+	}
+	for _, f := range st.Fields.List {
+		if !isValue(f.Type, 0) {
+			die(f.Pos(), "field of cron.Parser of reference type %s: shared by every copy of standardParser", exprStr(f.Type))
+		}
+		if len(f.Names) == 0 {
+			fields = append(fields, exprStr(f.Type))
+		}
+		for _, n := range f.Names {
+			fields = append(fields, n.Name)
+		}
+	}
+	_ = files
+	return
+}
 
 func analyseCron(dir string) (parserWrites, loggerWrites []string, valueRecv bool, parserMethods []string) {
 	valueRecv = true
@@ -1019,6 +1142,7 @@ func main() {
 	}
 	lockFacts := analyseLogger(filepath.Join(*repo, "logger"))
 	pw, lw, valueRecv, pmethods := analyseCron(filepath.Join(*repo, "cron"))
+	pfields := parserFieldKinds(filepath.Join(*repo, "cron"))
 	zeroTo := analyseBsp(filepath.Join(*repo, "byteslicepool/byteslicepool.go"))
 	bspPuts, bspGets := bspPoolCallers(filepath.Join(*repo, "byteslicepool/byteslicepool.go"))
 	ivWrites := analyseDefaultIV(filepath.Join(*repo, "crypto/aeskw"))
@@ -1027,7 +1151,7 @@ func main() {
 	b.WriteString("import KitModel.PoolOwnership\nimport KitModel.Containers\n")
 	b.WriteString("/-! GENERATED by harness/cmd/factgen_c08 from schemes/enc/v1/scheme.go, logger/*.go, cron/*.go,\ncrypto/aeskw/*.go, byteslicepool/byteslicepool.go — do not edit; bin/check rewrites it on every run. -/\n")
 	b.WriteString("namespace Kit.Generated.C08\nopen Kit.PoolOwn Kit.Containers\n\n")
-	b.WriteString("/-- a function of scheme.go that takes a buffer from `BufPool` -/\nstructure PoolUse where\n  func : String\n  bufVar : String\n  putDeferred : Bool        -- `defer … BufPool.Put(buf)` directly after the Get: on every path, after the last use\n  putExplicit : Nat         -- other Put calls\n  results : List RetKind    -- per result: (sub-)slice of the buffer / copy or unrelated value / always nil\n  retains : List String     -- a slice of the buffer stored where it outlives the call\n  passedTo : List String    -- callees receiving a slice of the buffer (by contract they do not retain it)\n  deriving Repr, DecidableEq\n\n")
+	b.WriteString("/-- a function of scheme.go that takes a buffer from `BufPool` -/\nstructure PoolUse where\n  func : String\n  bufVar : String\n  putDeferred : Bool        -- `defer … BufPool.Put(buf)` after the Get with only other defers in between: on every path\n  putExplicit : Nat         -- other Put calls\n  afterPut : List String    -- statements touching the buffer that run AFTER the deferred Put (defers registered before it, statements after it in its closure)\n  results : List RetKind    -- per result: (sub-)slice of the buffer / copy or unrelated value / always nil\n  retains : List String     -- a slice of the buffer stored where it outlives the call\n  passedTo : List String    -- callees receiving a slice of the buffer (by contract they do not retain it)\n  deriving Repr, DecidableEq\n\n")
 	b.WriteString("def poolUses : List PoolUse := [\n")
 	for i, u := range uses {
 		rk := make([]string, len(u.results))
@@ -1037,8 +1161,8 @@ func main() {
 			}
 			rk[j] = "." + r
 		}
-		fmt.Fprintf(&b, "  { func := %s, bufVar := %s, putDeferred := %v, putExplicit := %d, results := [%s], retains := %s, passedTo := %s }",
-			leanStr(u.fn), leanStr(u.bufVar), u.putDeferred, u.putExplicit, strings.Join(rk, ", "), leanStrs(u.retains), leanStrs(u.passedTo))
+		fmt.Fprintf(&b, "  { func := %s, bufVar := %s, putDeferred := %v, putExplicit := %d, afterPut := %s, results := [%s], retains := %s, passedTo := %s }",
+			leanStr(u.fn), leanStr(u.bufVar), u.putDeferred, u.putExplicit, leanStrs(u.afterPut), strings.Join(rk, ", "), leanStrs(u.retains), leanStrs(u.passedTo))
 		if i+1 < len(uses) {
 			b.WriteString(",")
 		}
@@ -1065,7 +1189,7 @@ func main() {
 	b.WriteString("]\n\n")
 	fmt.Fprintf(&b, "/-- assignments to / through / address-of `cron.standardParser` outside its declaration -/\ndef standardParserWrites : List String := %s\n\n", leanStrs(pw))
 	fmt.Fprintf(&b, "/-- assignments to / address-of `cron.DefaultLogger` outside its declaration -/\ndef defaultLoggerWrites : List String := %s\n\n", leanStrs(lw))
-	fmt.Fprintf(&b, "/-- every method of `cron.Parser` has a value receiver (it works on a copy) -/\ndef parserValueReceivers : Bool := %v\ndef parserMethods : List String := %s\n\n", valueRecv, leanStrs(pmethods))
+	fmt.Fprintf(&b, "/-- every method of `cron.Parser` has a value receiver (it works on a copy) -/\ndef parserValueReceivers : Bool := %v\ndef parserMethods : List String := %s\n/-- the fields of `cron.Parser`, all of value type (a reference-typed field makes factgen abort) -/\ndef parserValueFields : List String := %s\n\n", valueRecv, leanStrs(pmethods), leanStrs(pfields))
 	fmt.Fprintf(&b, "/-- uses of the package-level byte slice `aeskw.defaultIV` other than reading it (copy source, comparison operand) -/\ndef aeskwDefaultIVWrites : List String := %s\n\n", leanStrs(ivWrites))
 	fmt.Fprintf(&b, "/-- how far `ByteSlicePool.Get` clears a recycled slice -/\ndef bspZeroTo : ZeroTo := .%s\n\n", zeroTo)
 	fmt.Fprintf(&b, "/-- the functions of byteslicepool.go that hand a slice to the pool / take one out of it -/\ndef bspPutCallers : List String := %s\ndef bspGetCallers : List String := %s\n\n", leanStrs(bspPuts), leanStrs(bspGets))
